@@ -43,8 +43,10 @@ RMul(a, b) ==
 RInv(b) == IF b[1] < 0 THEN <<-b[2], -b[1]>> ELSE <<b[2], b[1]>>
 RDiv(a, b) == RMul(a, RInv(b))
 \* comparisons: cross-multiplication after cancelling the gcd of the denominators
-RLt(a, b) == LET g == GCD(a[2], b[2]) IN a[1] * (b[2] \div g) < b[1] * (a[2] \div g)
-RLe(a, b) == LET g == GCD(a[2], b[2]) IN a[1] * (b[2] \div g) <= b[1] * (a[2] \div g)
+\* (plain cross-multiplication: the compared quantities are knots, parameters and coordinates with small
+\*  denominators; an overflow would be reported by TLC, never wrapped)
+RLt(a, b) == IF a[2] = b[2] THEN a[1] < b[1] ELSE a[1] * b[2] < b[1] * a[2]
+RLe(a, b) == IF a[2] = b[2] THEN a[1] <= b[1] ELSE a[1] * b[2] <= b[1] * a[2]
 RGt(a, b) == RLt(b, a)
 RGe(a, b) == RLe(b, a)
 RMin(a, b) == IF RLe(a, b) THEN a ELSE b
